@@ -670,6 +670,14 @@ func c11History(c *Case) {
 						c.Note("target", target)
 						c.Violation("newfolder-missing", "create-folder was acknowledged but the folder does not exist")
 					}
+				} else if len(dec) <= 200 {
+					// the parent is an existing folder addressed by its LISTED names, the name is free: the request must succeed
+					c.Note("parent", dir)
+					c.Note("parent_path_field", optTok(pfb, has))
+					c.Note("name", hx(name))
+					c.Note("reply", reply)
+					c.Note("history", h.trace)
+					c.Violation("newfolder-refused", "create-folder with a free name inside an existing folder (addressed by its listed name bytes) was refused")
 				}
 				c.Nontrivial(fmt.Sprintf("newfolder|%v|%s", existed, target[len(ts.Root):]))
 			}
@@ -868,6 +876,19 @@ func init() {
 			if ireply, _ := h.step(fileReq{Kind: "info", Name: []byte("notes")}); !strings.Contains(ireply, hx([]byte("keep me"))) {
 				c.Note("info_reply", ireply)
 				c.Violation("refused-move-changed-tree", "after a refused move / rename the file lost its comment")
+			}
+			// parents with Mac-Roman high bytes at several depths, addressed by their listed names
+			os.MkdirAll(filepath.Join(ts.Root, "Bücher", "Ünter Öl", "ƒ"), 0755)
+			for _, ch := range [][]string{{"Bücher"}, {"Bücher", "Ünter Öl"}, {"Bücher", "Ünter Öl", "ƒ"}} {
+				pfb, has := h.pf(ch)
+				nm, _ := macEnc("Neu é")
+				reply, _ := h.step(fileReq{Kind: "newfolder", PF: pfb, HasPF: has, Name: nm})
+				if li, err := os.Lstat(filepath.Join(h.dirPath(ch), "Neu é")); reply != "ok" || err != nil || !li.IsDir() {
+					c.Note("parent", strings.Join(ch, "/"))
+					c.Note("reply", reply)
+					c.Violation("newfolder-refused", "create-folder inside a folder whose listed name has Mac-Roman high bytes did not create the folder")
+				}
+				h.listAndJudge(ch)
 			}
 			// 500a006: a folder's comment travels with a rename; a file later given the old name starts clean
 			os.MkdirAll(filepath.Join(ts.Root, "proj"), 0755)
